@@ -21,12 +21,15 @@ CONSTANTS Variant, MaxP, T
 Traces == JsonDeserialize(IOEnv.TRACE_FILE)
 
 VARIABLES ns, NB, np, pad, off, wpc, wb, wcur, wmax, file, misplaced, rms, size, pads,
-          tid, wpos, prop, impl
+          tid, wpos, prop, impl,
+          ord        \* <<>> : every interleaving of the workers' events is explored (runs with few workers);
+                     \* otherwise a worker order: the workers run to completion one after the other in that order
+                     \* (runs with many workers: R.orders lists orders in which every worker finishes last once)
 
 D == INSTANCE DestripeFile WITH NSs <- {}, NBs <- {}, NPs <- {}, Pads <- {}, Offs <- {}
 
 dvars == <<ns, NB, np, pad, off, wpc, wb, wcur, wmax, file, misplaced, rms, size, pads>>
-vars == <<dvars, tid, wpos, prop, impl>>
+vars == <<dvars, tid, wpos, prop, impl, ord>>
 
 R == Traces[tid]
 Ev(w) == R.workers[w + 1]          \* events of worker w (0-based worker ids, 1-based sequences)
@@ -45,9 +48,14 @@ Init ==
     /\ file = [c \in D!Cells |-> -1]
     /\ misplaced = FALSE /\ rms = {} /\ size = off /\ pads = {}
     /\ wpos = [w \in D!W |-> 0] /\ prop = "" /\ impl = ""
+    /\ ord \in (IF R.orders = <<>> THEN {<<>>} ELSE {R.orders[i] : i \in DOMAIN R.orders})
+
+Unfinished(w) == wpos[w] < Len(Ev(w))
+CanRun(w) == ord = <<>> \/ \E i \in DOMAIN ord : ord[i] = w /\ \A j \in 1..(i - 1) : ~Unfinished(ord[j])
 
 \* WorkerStart + Seek: e = [ev |-> "Start", b, maxs, pos, nothing]
 TStart(w) ==
+    /\ CanRun(w)
     /\ wpc[w] = "idle" /\ wpos[w] < Len(Ev(w))
     /\ \E e \in {Ev(w)[wpos[w] + 1]} :
         /\ e.ev = "Start"
@@ -56,12 +64,13 @@ TStart(w) ==
         /\ wcur' = [wcur EXCEPT ![w] = e.pos]
         /\ wpc' = [wpc EXCEPT ![w] = IF e.nothing THEN "done" ELSE "run"]
         /\ wpos' = [wpos EXCEPT ![w] = @ + 1]
-        /\ UNCHANGED <<ns, NB, np, pad, off, file, misplaced, rms, size, pads, tid, prop>>
+        /\ UNCHANGED <<ns, NB, np, pad, off, file, misplaced, rms, size, pads, tid, prop, ord>>
         /\ impl' = Pick(impl, << <<D!Start(w), "Start">> >>)
 
 \* WriteBatch (+ Pad, + WorkerDone): e = [ev |-> "Write", s0, s1, p0, rows, i0, rmsrow, padrows, padpos, done]
 \*   samples [s0 + i0, s0 + i0 + rows) of batch s0 / S were written at rows [p0, p0 + rows)
 TWrite(w) ==
+    /\ CanRun(w)
     /\ wpc[w] = "run" /\ wpos[w] < Len(Ev(w))
     /\ \E e \in {Ev(w)[wpos[w] + 1]} :
         /\ e.ev = "Write"
@@ -80,16 +89,17 @@ TWrite(w) ==
               /\ wb' = [wb EXCEPT ![w] = b + 1]
               /\ wpc' = [wpc EXCEPT ![w] = IF e.done THEN "done" ELSE "run"]
         /\ wpos' = [wpos EXCEPT ![w] = @ + 1]
-        /\ UNCHANGED <<ns, NB, np, pad, off, wmax, tid, prop>>
+        /\ UNCHANGED <<ns, NB, np, pad, off, wmax, tid, prop, ord>>
         /\ impl' = Pick(impl, << <<D!Write(w), "Write">> >>)
 
 \* the worker raised: e = [ev |-> "Crash"]
 TCrash(w) ==
+    /\ CanRun(w)
     /\ wpc[w] \in {"idle", "run"} /\ wpos[w] < Len(Ev(w))
     /\ Ev(w)[wpos[w] + 1].ev = "Crash"
     /\ wpc' = [wpc EXCEPT ![w] = "crashed"]
     /\ wpos' = [wpos EXCEPT ![w] = @ + 1]
-    /\ UNCHANGED <<ns, NB, np, pad, off, wb, wcur, wmax, file, misplaced, rms, size, pads, tid, prop, impl>>
+    /\ UNCHANGED <<ns, NB, np, pad, off, wb, wcur, wmax, file, misplaced, rms, size, pads, tid, prop, impl, ord>>
 
 \* all events consumed: judge this schedule's final state with the property layer
 Judge ==
@@ -110,14 +120,14 @@ Judge ==
           <<R.appendbad = 0, "AppendConcatenates">>,
           <<R.lsb <= 1, "EqualsBatchwise">> >>)
     /\ wpc' = [w \in D!W |-> "none"]
-    /\ UNCHANGED <<ns, NB, np, pad, off, wb, wcur, wmax, file, misplaced, rms, size, pads, tid, wpos, impl>>
+    /\ UNCHANGED <<ns, NB, np, pad, off, wb, wcur, wmax, file, misplaced, rms, size, pads, tid, wpos, impl, ord>>
 
 Report ==
     /\ \A w \in D!W : wpc[w] = "none"
     /\ wpos # [w \in D!W |-> -1]
     /\ (prop # "" \/ impl # "") => PrintT(<<"VERDICT", tid, prop, impl, 0>>)
     /\ wpos' = [w \in D!W |-> -1]
-    /\ UNCHANGED <<dvars, tid, prop, impl>>
+    /\ UNCHANGED <<dvars, tid, prop, impl, ord>>
 
 Next == (\E w \in D!W : TStart(w) \/ TWrite(w) \/ TCrash(w)) \/ Judge \/ Report
 Spec == Init /\ [][Next]_vars
